@@ -105,6 +105,19 @@ def point_body(case, rec):
     if ref > 1e-9 and not centre:
         rec.nontriv([case['spec'], case['ops'], tt, tx, t, x])
     if err > tol:
+        h = tx[1] - tx[0]
+        foot = g.nearest_param(side_x, np.array([x]), g.side_of(*tx), tx[0], tx[1])
+        PY = g.point(g.side_of(*tx), foot)
+        delta = float(np.hypot(PY[0][0] - P[0, 0], PY[1][0] - P[1, 0]))
+        if cls == 'beyond_1pct' and delta <= h / 8 * (1 + 1e-9) and info['rel_out'] * h > 2 * delta and err <= 5e-2:
+            # known finding K7: the point faces the element across a thin part of the domain -- at most h/8 away in the
+            # plane but more than twice as far along the curve (around a right-angle
+            # corner the ratio is at most sqrt 2); the rule is graded towards an end point of the
+            # element, not towards the foot point
+            rec.violation('C07/evaluate/beyond_1pct/facing_within_h_over_8_but_far_along_the_curve/err_below_5e-2',
+                          {'value': val, 'reference': ref, 'rel_err': err, 'tolerance': tol, 'plane_distance_over_h': delta / h,
+                           'curve_distance_over_h': info['rel_out']}, cj)
+            return
         rec.violation('C07/evaluate/%s/%s' % (cls, 'seam' if (g.closed and (tx[0] == 0 or tx[1] == g.L)) else 'plain'),
                       {'value': val, 'reference': ref, 'rel_err': err, 'tolerance': tol, 'class': cls}, cj)
         return
@@ -256,7 +269,39 @@ def cases():
     return st.one_of(pt, pt, pt, pt, pt, pt, pt, ig)
 
 
+def facing_family():
+    """deterministic: points facing an element across a thin part of the domain (close in the plane, far along the
+    curve) at times of parabolic ratio 16 ... 3 after the element's start, on uniformly refined meshes"""
+    out = []
+    thin = points.POLYGONS[0]
+    for curve, ks in ((thin, (0, 1, 3, 4, 5)), ('Stadium1', (2, 3, 4)), ('LShape', (3, 4)), ('Dee', (3, 4))):
+        for k in ks:
+            for ts in ([0.0, 0.25], [0.0, 0.01, 0.02]):
+                for j in range(0, 24):
+                    out.append({'kind': 'point', 'spec': {'kind': 'param', 'curve': curve, 'ts': ts, 'xs': None},
+                                'ops': [['unifx']] * k, 'ei': j * 7 + k, 'tcl': 'tau_start', 'tpar': [0.0, 0.2, 0.4][j % 3],
+                                'xcl': 'facing', 'xpar': [0.5, 0.3, 0.9][(j // 3) % 3], 'xi': j, 'side': 1})
+    return out
+
+
+def facing_all_leaves():
+    """every leaf of the uniformly refined thin plate with the point exactly opposite, at a time for which the kernel
+    argument delta^2/(4 tau) is about 3 (the value is sizeable) at parabolic ratio 11 / 2.8: the leaves in the middle
+    of the long sides are as far from their facing point along the curve as the curve allows"""
+    out = []
+    thin = points.POLYGONS[0]
+    for k, u in ((4, 0.12), (5, 0.4)):
+        for ei in range(4 << k):
+            out.append({'kind': 'point', 'spec': {'kind': 'param', 'curve': thin, 'ts': [0.0, 0.25], 'xs': None},
+                        'ops': [['unifx']] * k, 'ei': ei, 'tcl': 'tau_start', 'tpar': u, 'xcl': 'facing', 'xpar': 0.5,
+                        'xi': 1, 'side': 1})
+    return out
+
+
 def run(ctx):
+    fam = facing_family()
+    for case in ctx.mine((fam if not ctx.quick else fam[(ctx.seed % 2)::2]) + facing_all_leaves()):
+        body(case, ctx.rec)
     n = ctx.share(32000 if ctx.quick else 320000)
     explore(ctx, cases(), body, n)
 
